@@ -846,7 +846,8 @@ theorem createLoop_acct (t : TinyLFU) (size : Nat) (w : Int) (incEst : Nat) :
       createLoop t size w incEst fuel a sample o ev pp = .ok r →
       ∃ evNew, r.evicted = ev.reverse ++ evNew ∧ (∀ e ∈ evNew, 0 ≤ e.2.2) ∧
         r.adm.used = a.used - evSum evNew ∧ KwNonneg r.adm.kw ∧
-        (r.status = .accepted ∨ r.status = .rejected .noSpace) := by
+        ((r.overflow = false ∧ (r.status = .accepted ∨ r.status = .rejected .noSpace)) ∨
+          (r.overflow = true ∧ r.status = .pending)) := by
   intro fuel
   induction fuel with
   | zero => intro a sample o ev pp r _ h; simp [createLoop] at h
@@ -856,14 +857,14 @@ theorem createLoop_acct (t : TinyLFU) (size : Nat) (w : Int) (incEst : Nat) :
     split at h
     · simp only [Except.ok.injEq] at h
       subst h
-      exact ⟨[], by simp, by simp, by simp [evSum_nil], hn, Or.inl rfl⟩
+      exact ⟨[], by simp, by simp, by simp [evSum_nil], hn, Or.inl ⟨rfl, Or.inl rfl⟩⟩
     · split at h
       · cases h
       · split at h
         · cases h
         · simp only [Except.ok.injEq] at h
           subst h
-          exact ⟨[], by simp, by simp, by simp [evSum_nil], hn, Or.inr rfl⟩
+          exact ⟨[], by simp, by simp, by simp [evSum_nil], hn, Or.inl ⟨rfl, Or.inr rfl⟩⟩
       · rename_i id pops hpops
         split at h
         · cases h
@@ -873,45 +874,64 @@ theorem createLoop_acct (t : TinyLFU) (size : Nat) (w : Int) (incEst : Nat) :
           · split at h
             · simp only [Except.ok.injEq] at h
               subst h
-              exact ⟨[], by simp, by simp, by simp [evSum_nil], hn, Or.inr rfl⟩
+              exact ⟨[], by simp, by simp, by simp [evSum_nil], hn, Or.inl ⟨rfl, Or.inr rfl⟩⟩
             · cases hg : a.kw.get? id with
               | none =>
                 rw [Adm.delete_uncharged a id hg] at h
                 simp only at h
                 split at h
-                · cases h
-                · exact ih _ _ _ _ _ _ hn h
+                · simp only [Except.ok.injEq] at h
+                  subst h
+                  exact ⟨[], by simp, by simp, by simp [evSum_nil], hn, Or.inr ⟨rfl, rfl⟩⟩
+                · split at h
+                  · cases h
+                  · exact ih _ _ _ _ _ _ hn h
               | some wk =>
                 rw [Adm.delete_charged a id wk hg] at h
                 simp only at h
                 split at h
-                · cases h
-                · obtain ⟨evNew, he, hpos, hused, hkw, hst⟩ :=
-                    ih { a with kw := a.kw.del id, used := a.used - wk.weight } _ _ _ _ r (hn.del id) h
-                  refine ⟨(id, wk.key, wk.weight) :: evNew, by simp [he], ?_, ?_, hkw, hst⟩
+                · simp only [Except.ok.injEq] at h
+                  subst h
+                  refine ⟨[(id, wk.key, wk.weight)], by simp, ?_, ?_, hn.del id, Or.inr ⟨rfl, rfl⟩⟩
                   · intro e hmem
-                    simp only [List.mem_cons] at hmem
-                    rcases hmem with rfl | hmem
-                    · exact hn id wk hg
-                    · exact hpos e hmem
-                  · rw [hused, evSum_cons]; simp only; omega
+                    simp only [List.mem_singleton] at hmem
+                    subst hmem
+                    exact hn id wk hg
+                  · rw [evSum_cons, evSum_nil]; simp only; omega
+                · split at h
+                  · cases h
+                  · obtain ⟨evNew, he, hpos, hused, hkw, hst⟩ :=
+                      ih { a with kw := a.kw.del id, used := a.used - wk.weight } _ _ _ _ r (hn.del id) h
+                    refine ⟨(id, wk.key, wk.weight) :: evNew, by simp [he], ?_, ?_, hkw, hst⟩
+                    · intro e hmem
+                      simp only [List.mem_cons] at hmem
+                      rcases hmem with rfl | hmem
+                      · exact hn id wk hg
+                      · exact hpos e hmem
+                    · rw [hused, evSum_cons]; simp only; omega
 
 /-- `maybe_add`: only weights `≥ 0` are evicted, the total moves by what was evicted and what was added,
-    and the answer is `accepted` or one of the two refusals of admission. -/
+    and the answer is `accepted` or one of the two refusals of admission — or there is no answer: the worker panicked in
+    `is_space_available_for` (`overflow`, status `.pending`). -/
 theorem maybeAdd_acct {t : TinyLFU} {size : Nat} {a : Adm} {id key hash : Nat} {w : Int} {o : Oracle}
     {r : AdmResult} (hn : KwNonneg a.kw) (hw : 0 ≤ w) (h : maybeAdd t size a id key hash w o = .ok r) :
     (∀ e ∈ r.evicted, 0 ≤ e.2.2) ∧ KwNonneg r.adm.kw ∧
     r.adm.used = a.used - evSum r.evicted + (if r.status = .accepted then w else 0) ∧
-    (r.status = .accepted ∨ r.status = .rejected .noSpace ∨ r.status = .rejected .tooHeavy) := by
+    ((r.overflow = false ∧ (r.status = .accepted ∨ r.status = .rejected .noSpace ∨ r.status = .rejected .tooHeavy)) ∨
+      (r.overflow = true ∧ r.status = .pending)) := by
   unfold maybeAdd at h
   split at h
   · simp only [Except.ok.injEq] at h
     subst h
-    exact ⟨by simp, hn, by simp [evSum_nil], Or.inr (Or.inr rfl)⟩
+    exact ⟨by simp, hn, by simp [evSum_nil], Or.inl ⟨rfl, Or.inr (Or.inr rfl)⟩⟩
   · split at h
     · simp only [Except.ok.injEq] at h
       subst h
-      refine ⟨by simp, hn.set id hw, by simp [evSum_nil, Adm.add], Or.inl rfl⟩
+      exact ⟨by simp, hn, by simp [evSum_nil], Or.inr ⟨rfl, rfl⟩⟩
+    split at h
+    · simp only [Except.ok.injEq] at h
+      subst h
+      refine ⟨by simp, hn.set id hw, by simp [evSum_nil, Adm.add], Or.inl ⟨rfl, Or.inl rfl⟩⟩
     · split at h
       · cases h
       · split at h
@@ -933,15 +953,16 @@ theorem maybeAdd_acct {t : TinyLFU} {size : Nat} {a : Adm} {id key hash : Nat} {
               split
               · simp only [Adm.add]; omega
               · omega
-            · rcases hst with hst | hst
-              · exact Or.inl hst
-              · exact Or.inr (Or.inl hst)
+            · rcases hst with ⟨hov, hst | hst⟩ | hst
+              · exact Or.inl ⟨hov, Or.inl hst⟩
+              · exact Or.inl ⟨hov, Or.inr (Or.inl hst)⟩
+              · exact Or.inr hst
 
 /-- The answers of the eviction loop, with no assumption on the state. -/
-theorem createLoop_status (t : TinyLFU) (size : Nat) (w : Int) (incEst : Nat) :
+theorem createLoop_status_or_overflow (t : TinyLFU) (size : Nat) (w : Int) (incEst : Nat) :
     ∀ (fuel : Nat) (a : Adm) (sample : List SKey) (o : Oracle) (ev : List Evicted) (pp : List SKey)
       (r : LoopResult), createLoop t size w incEst fuel a sample o ev pp = .ok r →
-      (r.status = .accepted ∨ r.status = .rejected .noSpace) := by
+      ((r.status = .accepted ∨ r.status = .rejected .noSpace) ∨ (r.overflow = true ∧ r.status = .pending)) := by
   intro fuel
   induction fuel with
   | zero => intro a sample o ev pp r h; simp [createLoop] at h
@@ -949,31 +970,37 @@ theorem createLoop_status (t : TinyLFU) (size : Nat) (w : Int) (incEst : Nat) :
     intro a sample o ev pp r h
     rw [createLoop] at h
     split at h
-    · simp only [Except.ok.injEq] at h; subst h; exact Or.inl rfl
+    · simp only [Except.ok.injEq] at h; subst h; exact Or.inl (Or.inl rfl)
     · split at h
       · cases h
       · split at h
         · cases h
-        · simp only [Except.ok.injEq] at h; subst h; exact Or.inr rfl
+        · simp only [Except.ok.injEq] at h; subst h; exact Or.inl (Or.inr rfl)
       · split at h
         · cases h
         · split at h
           · cases h
           · split at h
-            · simp only [Except.ok.injEq] at h; subst h; exact Or.inr rfl
+            · simp only [Except.ok.injEq] at h; subst h; exact Or.inl (Or.inr rfl)
             · simp only [] at h
               split at h
-              · cases h
-              · exact ih _ _ _ _ _ _ h
+              · simp only [Except.ok.injEq] at h; subst h; exact Or.inr ⟨rfl, rfl⟩
+              · split at h
+                · cases h
+                · exact ih _ _ _ _ _ _ h
 
-/-- The answers of `maybe_add`: never `KeyAlreadyExists` / `KeyDoesNotExist`. -/
-theorem maybeAdd_status {t : TinyLFU} {size : Nat} {a : Adm} {id key hash : Nat} {w : Int} {o : Oracle}
+/-- The answers of `maybe_add`: never `KeyAlreadyExists` / `KeyDoesNotExist` (`.pending`: no answer, the worker's panic in
+    `is_space_available_for`). -/
+theorem maybeAdd_status_or_overflow {t : TinyLFU} {size : Nat} {a : Adm} {id key hash : Nat} {w : Int} {o : Oracle}
     {r : AdmResult} (h : maybeAdd t size a id key hash w o = .ok r) :
-    r.status = .accepted ∨ r.status = .rejected .noSpace ∨ r.status = .rejected .tooHeavy := by
+    r.status = .accepted ∨ r.status = .rejected .noSpace ∨ r.status = .rejected .tooHeavy ∨
+      (r.overflow = true ∧ r.status = .pending) := by
   unfold maybeAdd at h
   split at h
-  · simp only [Except.ok.injEq] at h; subst h; exact Or.inr (Or.inr rfl)
+  · simp only [Except.ok.injEq] at h; subst h; exact Or.inr (Or.inr (Or.inl rfl))
   · split at h
+    · simp only [Except.ok.injEq] at h; subst h; exact Or.inr (Or.inr (Or.inr ⟨rfl, rfl⟩))
+    split at h
     · simp only [Except.ok.injEq] at h; subst h; exact Or.inl rfl
     · split at h
       · cases h
@@ -984,9 +1011,10 @@ theorem maybeAdd_status {t : TinyLFU} {size : Nat} {a : Adm} {id key hash : Nat}
           · rename_i lr hl
             simp only [Except.ok.injEq] at h
             subst h
-            rcases createLoop_status _ _ _ _ _ _ _ _ _ _ lr hl with hst | hst
+            rcases createLoop_status_or_overflow _ _ _ _ _ _ _ _ _ _ lr hl with (hst | hst) | hst
             · exact Or.inl hst
             · exact Or.inr (Or.inl hst)
+            · exact Or.inr (Or.inr (Or.inr hst))
 
 /-- A put answered `KeyAlreadyExists` by the worker changed nothing at all. -/
 theorem workerPut_exists {s s1 : State} {id hash : Nat} {w : Int} {k v : Nat} {ttl : Option Nat} {o o' : Oracle}
@@ -1001,8 +1029,10 @@ theorem workerPut_exists {s s1 : State} {id hash : Nat} {w : Int} {k v : Nat} {t
   · split at h
     · cases h
     · rename_i r hm
-      have hst := maybeAdd_status hm
+      have hst := maybeAdd_status_or_overflow hm
       simp only [] at h
+      split at h
+      · simp at h
       split at h
       · split at h
         · simp only [Except.ok.injEq, Prod.mk.injEq, Exec.done.injEq] at h
@@ -1014,7 +1044,7 @@ theorem workerPut_exists {s s1 : State} {id hash : Nat} {w : Int} {k v : Nat} {t
             exact absurd h.1.2.1 (by decide)
       · simp only [Except.ok.injEq, Prod.mk.injEq, Exec.done.injEq] at h
         rw [h.1.2.1] at hst
-        rcases hst with e | e | e <;> cases e
+        rcases hst with e | e | e | ⟨_, e⟩ <;> cases e
 
 /-! ### the worker's commands -/
 
@@ -1071,6 +1101,11 @@ theorem workerPut_ok {s : State} {id hash : Nat} {w : Int} {k v : Nat} {ttl : Op
     · cases h
     · rename_i r hm
       obtain ⟨hpos, hnn, hused, hst⟩ := maybeAdd_acct hwt.nonneg hw hm
+      have hstOv : r.overflow = true → r.status ≠ .accepted := by
+        intro hov hacc
+        rcases hst with ⟨h1, _⟩ | ⟨_, h1⟩
+        · rw [hov] at h1; cases h1
+        · rw [hacc] at h1; cases h1
       have F := foldl_applyEvict_StatsInv r.evicted { s with adm := r.adm } hpos
       have hk1 : KeyI (r.evicted.foldl applyEvict { s with adm := r.adm }) := F.key (hk.congr rfl)
       have habs1 := F.absent k habs
@@ -1079,6 +1114,17 @@ theorem workerPut_ok {s : State} {id hash : Nat} {w : Int} {k v : Nat} {ttl : Op
       have hrej : s1.stats.keysRejected = s.stats.keysRejected := F.rej
       have hwA : ∀ A : Nat, ((((A + w.toNat) % u64Mod : Nat) : Int) - (A : Int) - w) % (u64Mod : Int) = 0 := by
         intro A; simp only [u64Mod]; omega
+      split at h
+      · -- the worker panicked in `is_space_available_for`: the evictions made so far stand, nothing was added
+        rename_i hov
+        rw [if_neg (hstOv hov)] at hused
+        simp only [Except.ok.injEq, Prod.mk.injEq] at h
+        obtain ⟨rfl, _⟩ := h
+        refine ⟨F.env, F.acc, F.cmd, hk1.congr rfl,
+          wtI_after (dw := 0) hwt F hused hnn rfl
+            (by show ((s1.stats.weightAdded : Int) - s1.stats.weightAdded - 0) % (u64Mod : Int) = 0; simp) rfl, ?_⟩
+        simpa [Exec.st, Exec.refusedBy] using hrej
+      rename_i hnov
       split at h
       · rename_i hacc
         rw [if_pos hacc] at hused
@@ -1103,9 +1149,10 @@ theorem workerPut_ok {s : State} {id hash : Nat} {w : Int} {k v : Nat} {ttl : Op
         simp only [Except.ok.injEq, Prod.mk.injEq] at h
         obtain ⟨rfl, _⟩ := h
         have hst' : r.status = .rejected .noSpace ∨ r.status = .rejected .tooHeavy := by
-          rcases hst with h1 | h1
+          rcases hst with ⟨_, h1 | h1⟩ | ⟨h1, _⟩
           · exact absurd h1 hacc
           · exact h1
+          · exact absurd h1 hnov
         refine ⟨F.env, F.acc, F.cmd, hk1.congr rfl,
           wtI_after (dw := 0) hwt F hused hnn rfl
             (by show ((s1.stats.weightAdded : Int) - s1.stats.weightAdded - 0) % (u64Mod : Int) = 0; simp) rfl, ?_⟩
@@ -1221,6 +1268,10 @@ theorem workerPut_env {s : State} {id hash : Nat} {w : Int} {k v : Nat} {ttl : O
       have F := foldl_applyEvict_env r.evicted { s with adm := r.adm }
       simp only [] at h
       generalize r.evicted.foldl applyEvict { s with adm := r.adm } = s1 at h F
+      split at h
+      · simp only [Except.ok.injEq, Prod.mk.injEq] at h
+        obtain ⟨rfl, _⟩ := h
+        exact F
       split at h
       · split at h
         · simp only [Except.ok.injEq, Prod.mk.injEq] at h
